@@ -60,7 +60,7 @@ def run(ctx):
         R.run_cases(ctx, stream, cases, PROJ, oracle, classify)
     # the CLI end to end (info yaml, file names, csv files) on a sample of the same generators
     cli_cases = [gen(ctx, kind) for stream, kind, n in streams(ctx) for _ in range(max(8, n // 25))]
-    cli_cases += [R.make_case(ctx.rng, "primarymode") for _ in range(60 if ctx.thorough else 12)]     # merged all_haplotigs files keep each haplotype's order
+    cli_cases += [R.make_case(ctx.rng, ctx.rng.choice(["primarymode", "primarynames"])) for _ in range(60 if ctx.thorough else 12)]     # merged all_haplotigs files keep each haplotype's order
     R.run_cli_cases(ctx, "cli-end-to-end", cli_cases, classify, only=["chromosome list", "does not contain exactly", "unexpected assembly files"])
     # history: the same maps remapped AFTER other maps of the same input on ONE IndexedAssembly object (in-process state must not matter)
     hk = ['tagged', 'unlocs']
